@@ -27,6 +27,7 @@ float nondet_float(void) { unsigned u = (unsigned)verif_next(); float f; memcpy(
 #define __CPROVER_assert(c, msg) do { if (!(c)) { printf("NATIVE-VIOLATION: %s\n", msg); fflush(stdout); exit(1); } } while (0)
 #define CANARY(name)
 #define CANARY_ASSUME(c)
+#define CANARY_SET(lhs, val) ((void)0)
 #define VERIF_DEFINE_CELT_FATAL \
   void celt_fatal(const char *str, const char *file, int line) { printf("NATIVE-VIOLATION: celt_fatal %s (%s:%d)\n", str, file, line); fflush(stdout); exit(1); }
 #define VERIF_NATIVE_MAIN(h) int main(int argc, char **argv) { if (argc > 1) verif_load(argv[1]); h(); printf("NATIVE-OK\n"); return 0; }
